@@ -289,6 +289,13 @@ def run(ck):
                   "the decrement is reached only after the increment" if p is None else
                   "the counter can be decremented although it was not incremented", ow, ow.node,
                   witness=path_witness(g, p))
+        # every run is a counted run: the uncounted coroutine is entered through the wrapper only
+        raw = sorted({f.fid for f in oa.methods.values() for x in own_nodes(f.node)
+                      if isinstance(x, ast.Call) and call_name(x) == '_output_coro' and recv(x) == 'self'})
+        ck.ob(R3, f"{OA} :: callers of _output_coro", raw == [ow.fid],
+              "_output_coro is called by the counting wrapper only" if raw == [ow.fid] else
+              f"_output_coro is called from {raw}: a run started there is not counted - the output stays 0 while "
+              "the coroutine runs", ow, ow.node)
         sites = sorted({f.fid for f in oa.methods.values() for x in own_nodes(f.node)
                         if isinstance(x, ast.Call) and call_name(x) == 'set_output'})
         ir = m.get('init_regular')
